@@ -11,9 +11,11 @@ cp $S/out/meta.json $OUT/meta.agent.json
 cd $R
 run_demo() { CARGO_TARGET_DIR=$S/target cargo test --offline -j 8 -p $CRATE --test seeded_demo 2>&1 | grep -E "^test result" | head -1; }
 echo "== demo WITH change";   with=$(run_demo); echo "$with"
-git stash -q -- $(git diff --name-only)
+# without the change: reverse-apply the working-tree diff (no stash: a stash would write into /repo's shared git directory)
+git diff > $S/wt.patch
+git apply -R $S/wt.patch
 echo "== demo WITHOUT change"; without=$(run_demo); echo "$without"
-git stash pop -q
+git apply $S/wt.patch
 echo "== applies to /repo HEAD?"; git -C /repo apply --check $OUT/patch.diff && applies=yes || applies=no; echo $applies
 echo "== registered check against the change"
 res=$(/verif/tools/mutant_run.sh $ID $OUT/patch.diff --tier quick 2>&1); rc=$?
